@@ -208,8 +208,11 @@ class BackendProvider(ABC):
 
         Returns integer result if the result is a whole number.
         """
-        r = np.power(float(a) if isinstance(a, (int, np.integer)) else a, b)
-        return r
+        if isinstance(a, (int, np.integer)):
+            a = float(a)
+        elif isinstance(a, np.ndarray) and a.dtype.kind in 'iu':
+            a = a.astype(float)
+        return np.power(a, b)
 
     def has_gradient(self, x) -> bool:
         """Check if x is tracking gradients (for autograd)."""
